@@ -41,8 +41,19 @@ Definition dedent (text : str) : str :=
   | _ => join [nl] lines
   end.
 
+(* _LEADING_BLANK_LINES_RE.sub("", text): re.sub(r"\A(?:[^\S\n]*\n)+", "", text) - whitespace-only lines at the start go,
+   the indentation of the first line with content stays ([line_start] is the text from the start of the current line) *)
+Fixpoint dlb (s : str) (line_start : str) : str :=
+  match s with
+  | [] => line_start
+  | c :: r => if N.eqb c 10 then dlb r r
+              else if is_space c then dlb r line_start
+              else line_start
+  end.
+Definition drop_leading_blank_lines (s : str) : str := dlb s s.
+
 Definition prepare_body (text : str) : str :=
-  preprocess_tag_block_spacing (strip (strip (dedent text)) ++ [nl]).
+  preprocess_tag_block_spacing (rstrip (drop_leading_blank_lines (dedent text)) ++ [nl]).
 
 (* ---- transforms + render ---- *)
 Record mdopts := MdOpts {
